@@ -1,35 +1,14 @@
 import NettyVerif.Model.Life
 import NettyVerif.Model.Panic
+import NettyVerif.Proofs.PanicNest
 /-! # C07 — Handler panics and transport failures are contained and routed as exceptions -/
 namespace NettyVerif.C07
 open NettyVerif.Panic NettyVerif.Pipeline
 
 /-- the exception handlers of a pipeline, by position, up to the first that does not forward -/
-def excChain : Nat → List PHandler → List Nat × Bool
-  | _, [] => ([], true)
-  | i, p :: rest =>
-    if p.h.implements .exception then
-      if p.h.forwards .exception then let r := excChain (i+1) rest; (i :: r.1, r.2) else ([i], false)
-    else excChain (i+1) rest
+abbrev excChain := Panic.chain
 
-theorem fireException_eq (hs : List PHandler) : fireException hs = excChain 1 hs := by
-  unfold fireException
-  suffices h : ∀ (i : Nat) (l : List PHandler),
-      ((deliverUpP .exception i (l.map (fun p => { p with pan := 0 }))).1,
-       (deliverUpP .exception i (l.map (fun p => { p with pan := 0 }))).2 == .fin .close) = excChain i l from h 1 hs
-  intro i l
-  induction l generalizing i with
-  | nil => simp [deliverUpP, excChain]
-  | cons p rest ih =>
-    simp only [List.map_cons, deliverUpP, excChain, PHandler.panics]
-    by_cases hi : p.h.implements .exception
-    · simp only [hi, ite_true, Nat.zero_testBit, Bool.false_eq_true, ite_false]
-      by_cases hf : p.h.forwards .exception
-      · simp only [hf, ite_true]
-        have := ih (i+1)
-        rw [← this]
-      · simp [hf]
-    · simp only [hi, Bool.false_eq_true, ite_false]; exact ih (i+1)
+theorem fireException_eq (hs : List PHandler) : fireException hs = excChain 1 hs := fireException_chain hs
 
 /-- **containment**: whatever handler panics with whatever value during delivery of an active, read,
     write or user event entered through Channel.Write / Channel.Trigger / the read loop, the panic
@@ -90,6 +69,59 @@ example : invoke [h1, h2, h3] none .read false =
 example : (invoke [h1, h2] none .read false).closedWith = some (.err 7) := by decide
 example : (invoke [h3] (some (.netFatal 1)) .write false).closedWith = some (.netFatal 1) := by decide
 
+
+/-! ## a second panic while the first exception is still travelling -/
+
+/-- **overlapping exceptions**: an exception handler on the chain (position `r`) answers the exception
+    `v` by `Channel.Write` / `Channel.Trigger` (kind `rk`), and a handler panics with `v2` during that
+    delivery. Both exceptions are then delivered exactly once, each to the whole chain of exception
+    handlers in pipeline order; the channel stays open exactly when neither reaches the tail nor is a
+    non-timeout net.Error, and when the second one closes the channel it is closed with the second one
+    (it gets there first) -/
+theorem C07_nested_panic_each_delivered_once (hs : List PHandler) (hf : Option PVal) (k rk : Kind) (r : Nat)
+    (vis vis2 : List Nat) (pos pos2 : Nat) (v v2 : PVal)
+    (hp : deliverP hs hf k (if k = .write then hs.length + 1 else 0) = (vis, .panic pos v))
+    (hn : deliverP hs hf rk (if rk = .write then hs.length + 1 else 0) = (vis2, .panic pos2 v2))
+    (hr : r ∈ (excChain 1 hs).1) (hne : v ≠ v2) :
+    let res := invokeR hs hf k r rk
+    excOf v res.trace = (excChain 1 hs).1 ∧ excOf v2 res.trace = (excChain 1 hs).1 ∧
+    (res.closedWith = none ↔ ((excChain 1 hs).2 = false ∧ v.isFatalNet = false ∧ v2.isFatalNet = false)) ∧
+    (((excChain 1 hs).2 = true ∨ v2.isFatalNet = true) → res.closedWith = some v2) := by
+  have hN := nestedInvoke_panic hs hf rk vis2 pos2 v2 hn
+  have hNv : excOf v (nestedInvoke hs hf rk).1 = [] := by
+    rw [(hN v).1, if_neg (fun h => hne h.symm)]
+  have hs1 := excReact_spec v v2 r (nestedInvoke hs hf rk).1 hNv hne 1 hs
+  have hreact : (excReact v r (nestedInvoke hs hf rk).1 1 hs).2.1 = true := hs1.2.1.2 hr
+  simp only [invokeR, hp, excOf_append, excOf_visits, List.nil_append, hs1.2.2.1, hs1.2.2.2, hr, ite_true, (hN v2).1,
+    hs1.1, hreact, (hN v2).2, Bool.true_and]
+  refine ⟨trivial, trivial, ?_, ?_⟩
+  · cases h1 : (chain 1 hs).2 <;> cases h2 : v.isFatalNet <;> cases h3 : v2.isFatalNet <;> simp
+  · rintro (h | h) <;> simp [h]
+
+/-- a reaction whose delivery does not panic leaves the first exception's route untouched -/
+theorem C07_quiet_reaction (hs : List PHandler) (hf : Option PVal) (k rk : Kind) (r : Nat)
+    (vis vis2 : List Nat) (pos : Nat) (v : PVal) (f : Final)
+    (hp : deliverP hs hf k (if k = .write then hs.length + 1 else 0) = (vis, .panic pos v))
+    (hn : deliverP hs hf rk (if rk = .write then hs.length + 1 else 0) = (vis2, .fin f)) :
+    let res := invokeR hs hf k r rk
+    excOf v res.trace = (excChain 1 hs).1 ∧ res.closedWith = (invoke hs hf k false).closedWith := by
+  have hN := nestedInvoke_fin hs hf rk vis2 f hn
+  have hw : v ≠ (match v with | .err _ => PVal.str 0 | _ => PVal.err 0) := by cases v <;> simp
+  have hs1 := excReact_spec v _ r (nestedInvoke hs hf rk).1 (hN v).1 hw 1 hs
+  simp only [invokeR, invoke, hp, excOf_append, excOf_visits, List.nil_append, (hN v).2, Option.isSome_none, Bool.and_false,
+    Bool.false_eq_true, ite_false, fireException_eq, hs1.2.2.1, hs1.1, and_self]
+
+/-- with no reacting handler the model is the one the other theorems speak about -/
+theorem C07_reactor_absent (hs : List PHandler) (hf : Option PVal) (k rk : Kind) :
+    let a := invokeR hs hf k 0 rk
+    let b := invoke hs hf k false
+    a.trace = b.visited.map (fun p => TEv.visit k p) ++ (match b.excVal with | some v => b.excVisited.map (fun p => TEv.exc p v) | none => []) ∧
+    a.closedWith = b.closedWith := by
+  simp only [invokeR, invoke]
+  split
+  · simp
+  · simp [excReact_none, fireException_eq]
+
 /-! ## panics of the active / read handlers on a served channel (lifecycle acceptor) -/
 open NettyVerif.Life in
 /-- a panic of the active handler (or of a read handler) is owed to the exception handlers: the
@@ -111,3 +143,6 @@ end NettyVerif.C07
 #print axioms NettyVerif.C07.C07_closed_channel_silent
 #print axioms NettyVerif.C07.C07_no_panic_no_exception
 #print axioms NettyVerif.C07.C07_served_channel_panics_are_routed
+#print axioms NettyVerif.C07.C07_nested_panic_each_delivered_once
+#print axioms NettyVerif.C07.C07_quiet_reaction
+#print axioms NettyVerif.C07.C07_reactor_absent
